@@ -367,6 +367,57 @@ func fanoutShape(pi *pkgInfo) bool {
 	return sends == 1 && good == 1
 }
 
+// byteDriven: the framer reads its input only through ByteChannel.GetNextByte / PushBack and knows no clock:
+// in rtcm/handler the frame-scanning functions call no other method on the byte channel, contain no select
+// statement and do not mention package time; package rtcm/pushback contains no select statement and does not
+// import time.  (A framer that flushes on a timer would make the segmentation depend on when bytes arrive.)
+func byteDriven(handler, pushback *pkgInfo) bool {
+	for _, fn := range []string{"FetchNextMessageFrame", "eatUntilStartOfFrame"} {
+		d := handler.funcs[fn]
+		if d == nil {
+			return false
+		}
+		ok := true
+		ast.Inspect(d.Body, func(m ast.Node) bool {
+			switch x := m.(type) {
+			case *ast.SelectStmt:
+				ok = false
+			case *ast.SelectorExpr:
+				if id, isId := x.X.(*ast.Ident); isId {
+					if id.Name == "time" {
+						ok = false
+					}
+					if id.Name == "pc" && x.Sel.Name != "GetNextByte" && x.Sel.Name != "PushBack" {
+						ok = false
+					}
+				}
+			}
+			return true
+		})
+		if !ok {
+			return false
+		}
+	}
+	for _, d := range pushback.funcs {
+		bad := false
+		ast.Inspect(d.Body, func(m ast.Node) bool {
+			switch x := m.(type) {
+			case *ast.SelectStmt:
+				bad = true
+			case *ast.SelectorExpr:
+				if id, isId := x.X.(*ast.Ident); isId && id.Name == "time" {
+					bad = true
+				}
+			}
+			return true
+		})
+		if bad {
+			return false
+		}
+	}
+	return len(pushback.funcs) > 0
+}
+
 // wholeBodyLocked: the function runs entirely under the given lock and neither it nor a function of the same
 // package that it calls takes the lock again.
 func wholeBodyLocked(pi *pkgInfo, fn, kind string) bool {
@@ -503,6 +554,7 @@ func main() {
 	b.WriteString("\n(* rtcmfilter's writer skips exactly the NonRTCMMessage messages and writes RawData; appcore fans every\n   message out to every non-nil channel in index order *)\n")
 	fmt.Fprintf(&b, "Definition filter_skips_only_nonrtcm : bool := %v.\n", filterShape(get("apps/rtcmfilter")))
 	fmt.Fprintf(&b, "Definition fanout_all_non_nil : bool := %v.\n", fanoutShape(get("apps/appcore")))
+	fmt.Fprintf(&b, "Definition framer_is_byte_driven : bool := %v.\n", byteDriven(get("rtcm/handler"), get("rtcm/pushback")))
 	cq := get("apps/proxy/circular_queue")
 	fmt.Fprintf(&b, "Definition queue_add_locked : bool := %v.\n", wholeBodyLocked(cq, "Add", "Lock"))
 	fmt.Fprintf(&b, "Definition queue_get_locked : bool := %v.\n", wholeBodyLocked(cq, "GetMessages", "RLock"))
